@@ -158,6 +158,9 @@ def run_case(driver, script, rng, use_z3=True, what=("df", "excel", "gantt", "js
     with smrun.silent():
         s = ps.SchedulingSolver(problem=real.problem, max_time=5, **cfg)
         try:
+            # the constraint system of the problem, before any search has touched the solver object
+            s.initialize()
+            base = list(s._solver.assertions())
             solution = s.solve()
         except OverflowError:
             # an unbounded schedule (no horizon, objective pushing instants up) under a calendar: Python's datetime
@@ -176,7 +179,7 @@ def run_case(driver, script, rng, use_z3=True, what=("df", "excel", "gantt", "js
     diffs = []
     n = 0
     if "smt" in what:
-        d2, k = smt_roundtrip(s)
+        d2, k = smt_roundtrip(s, base, solution)
         diffs += d2
         n += k
     if not solution:
@@ -308,8 +311,10 @@ def run_case(driver, script, rng, use_z3=True, what=("df", "excel", "gantt", "js
     return diffs, n
 
 
-def smt_roundtrip(solver):
-    """the SMT-LIB export parses and denotes the assertions the solver checks"""
+def smt_roundtrip(solver, base=None, solution=None):
+    """the SMT-LIB export parses and denotes the constraint system of the problem: the assertions of the freshly initialised
+    solver (`base`), also when the export is written after a search has run on the same solver object; the schedule
+    the search returned is a model of it"""
     tmp = tempfile.mkdtemp(prefix="pssmt_")
     try:
         fn = os.path.join(tmp, "p.smt2")
@@ -320,16 +325,24 @@ def smt_roundtrip(solver):
             parsed = z3.parse_smt2_string(text)
         except Exception as e:  # noqa: BLE001
             return [f"exported SMT-LIB does not parse: {e}"], 0
+        ref = base if base is not None else list(solver._solver.assertions())
         a = z3walk.canon(sorted(z3walk.sx(x) for x in parsed))
-        b_ = z3walk.canon(sorted(z3walk.sx(x) for x in solver._solver.assertions()))
-        if len(a) != len(b_):
+        b_ = z3walk.canon(sorted(z3walk.sx(x) for x in ref))
+        if a != b_:
             # z3 may split / merge top-level conjunctions; fall back to logical equivalence
             s1 = z3.Solver(); s1.set("timeout", 10000)
-            s1.add(list(parsed)); s1.add(z3.Not(z3.And(list(solver._solver.assertions()))))
+            s1.add(list(parsed)); s1.add(z3.Not(z3.And(list(ref))))
             s2 = z3.Solver(); s2.set("timeout", 10000)
-            s2.add(list(solver._solver.assertions())); s2.add(z3.Not(z3.And(list(parsed))))
+            s2.add(list(ref)); s2.add(z3.Not(z3.And(list(parsed))))
             if s1.check() == z3.sat or s2.check() == z3.sat:
-                return [f"exported SMT-LIB denotes a different constraint system ({len(a)} vs {len(b_)} assertions)"], len(a)
+                return [f"SMT-LIB export written after solve() denotes a different constraint system than the problem "
+                        f"({len(a)} exported vs {len(b_)} assertions of the freshly initialised solver)"], len(a)
+        if solution and solver._model is not None:
+            for x in parsed:
+                v = solver._model.eval(x, model_completion=True)
+                if z3.is_false(v):
+                    return [f"the schedule solve() returned is not a model of the SMT-LIB export written afterwards: "
+                            f"{str(x)[:160]} is false"], len(a)
         return [], len(a)
     finally:
         shutil.rmtree(tmp, ignore_errors=True)
